@@ -13,7 +13,7 @@ FALSE = ("false",)
 _NOT_CALLS = {"Not::not"}
 _AND_CALLS = {"BitAnd::bitand"}
 _OR_CALLS = {"BitOr::bitor"}
-_ID_CALLS = {"Into::into", "From::from", "Choice::unwrap_u8", "unwrap_u8", "Clone::clone", "black_box"}
+_ID_CALLS = {"Into::into", "From::from", "Choice::unwrap_u8", "Clone::clone", "black_box"}
 
 _NEG_CMP = {"Eq": "Ne", "Ne": "Eq", "Lt": "Ge", "Ge": "Lt", "Gt": "Le", "Le": "Gt"}
 
@@ -148,7 +148,7 @@ def _formula(t, prog, depth):
 
 
 def _is_choice_u8(t):
-    return t.op == "call" and _name(t) in ("unwrap_u8", "Choice::unwrap_u8")
+    return t.op == "call" and _name(t) in ("Choice::unwrap_u8")
 
 
 def _unref(t):
